@@ -388,6 +388,15 @@ func derivesFrom(v ssa.Value, src func(ssa.Value) bool, followCalls bool) bool {
 		if o := origin(v); o != v {
 			return rec(o, depth+1)
 		}
+		if _, isPrm := v.(*ssa.Parameter); isPrm {
+			// a parameter of a private helper called from several places may carry any of the arguments
+			for _, o := range originsAll(v) {
+				if o != v && rec(o, depth+1) {
+					return true
+				}
+			}
+			return false
+		}
 		switch x := v.(type) {
 		case *ssa.ChangeType:
 			return rec(x.X, depth+1)
@@ -842,4 +851,9 @@ func flatStructFields(st *types.Struct, prefix string, depth int) []flatField {
 		out = append(out, flatField{prefix + f.Name(), f.Type()})
 	}
 	return out
+}
+
+func isBoolType(t types.Type) bool {
+	b, ok := t.Underlying().(*types.Basic)
+	return ok && b.Info()&types.IsBoolean != 0
 }
